@@ -335,7 +335,11 @@ func runDWRs(out *Out, id *int) {
 				// the DWR names its sender as the CER did, in another spelling (names are
 				// case-insensitive), or differently: it is a well-formed DWR all the same
 				reqOH := []string{peerHost, strings.ToUpper(peerHost[:1]) + peerHost[1:], peerHost, "other." + peerHost, peerHost}[k]
-				s.Conn.Feed(buildDWRv(h, e, osid, osidVal, reqOH, peerRealm))
+				dwr := buildDWRv(h, e, osid, osidVal, reqOH, peerRealm)
+				if k == 2 {
+					dwr[4] |= 0x10 // the T bit: the peer marks the request as potentially retransmitted; it is a DWR all the same
+				}
+				s.Conn.Feed(dwr)
 				s.Conn.WaitReaderBlocked(3 * time.Second)
 				*id++
 				l := dwaLine{Ev: "dwa", ID: *id, ReqHbH: abs.B4(h), ReqE2E: abs.B4(e), HbH: []int{}, E2E: []int{}, WantOH: string(srvSettings.OriginHost), WantOR: string(srvSettings.OriginRealm), OSID: osid, ReqOH: reqOH}
